@@ -31,7 +31,7 @@ struct Obs {
     re_outside: usize, cfg: u8, flaky: bool,
     /// per label: (line, column) agrees with the oracle that splits lines at \n only / at \n, \r\n and lone \r
     linecol: Vec<(bool, bool)>,
-    /// the diagnostic's own line/column is its first label's, and the `--> ..:L:C` of the rendered text too
+    /// the diagnostic's own line/column is its first label's, and the `--> ..:L:C` of the rendered text is a label's
     head_ok: bool,
     /// spans of the RULE_DECL nodes (parallel to `declared`) and of the labels of errors only
     decl_spans: Vec<(usize, usize)>, err_labels: Vec<(usize, usize)>,
@@ -120,7 +120,8 @@ fn observe(src: &[u8], cfg: u8) -> Obs {
                 let head: String = text[p + 4..].chars().take_while(|c| *c != '\n').collect();
                 let mut it = head.rsplit(':');
                 let (c, l) = (it.next().and_then(|x| x.trim().parse::<u64>().ok()), it.next().and_then(|x| x.trim().parse::<u64>().ok()));
-                if l != js["line"].as_u64() || c != js["column"].as_u64() { o.head_ok = false; }
+                // (the renderer points at the annotation that comes first in the source, not necessarily the first label)
+                if !labels.iter().any(|x| x["line"].as_u64() == l && x["column"].as_u64() == c) { o.head_ok = false; }
             }
         }
     };
